@@ -128,6 +128,15 @@ pub fn units(tier: Tier, _seed: u64) -> Vec<Unit> {
             u.push(unit!(format!("C03/{}/K={kk}/fresh-vs-prefix={}", vk.name(), 8 * n + 3), finite_memory_longprefix(vk.clone(), kk, 8 * n + 3, n)));
         }
     }
+    // very long private prefixes (hundreds of evictions): periodic maintenance (a re-summation every so many evictions, a ring buffer
+    // that has wrapped, a counter that saturates) only comes into play after far more than 10 windows
+    for &n in &(if q_ { vec![5usize, 7] } else { vec![3usize, 5, 7, 10, 13] }) {
+        let plen = 107 * n + 3;
+        for vk in [VK::Sma(n), VK::Cumulative(n), VK::WelfordOnline(n), VK::Min(n), VK::Max(n), VK::HLNormalizer(n), VK::BinaryEntropy(n), VK::CoG(n), VK::Rsi(n), VK::CTI(n)] {
+            let kk = match vk { VK::Rsi(_) => n + 1, _ => n };
+            u.push(unit!(format!("C03/{}/K={kk}/fresh-vs-prefix={plen}", vk.name()), finite_memory_longprefix(vk.clone(), kk, plen, n)));
+        }
+    }
     for x in u.iter_mut() { x.budget_s = if q_ { 30.0 } else { 900.0 }; x.max_decisions = 60000; x.path_cap = if q_ { 3000 } else { 20000 }; }
     let first_big = u.len();
     for &n in &(if q_ { vec![5usize, 8] } else { vec![5usize, 6, 8, 12, 16] }) {
@@ -142,7 +151,7 @@ pub fn units(tier: Tier, _seed: u64) -> Vec<Unit> {
 pub fn meta() -> Meta {
     Meta {
         functions: vec!["Sma", "Cumulative", "Min", "Max", "Roc", "WelfordOnline", "Vst", "Vsct", "HLNormalizer", "BinaryEntropy", "CenterOfGravity", "CorrelationTrendIndicator", "NoiseEliminationTechnology", "Rsi", "MyRSI", "Alma", "PolarizedFractalEfficiency over Sma(M) and over a harness M-window mean — each ::{new,update,last}, two instances"],
-        bounds: "N in {1,2} (quick) / {1..4} (thorough) (CTI/NET/PFE at their minimum 3, NET to 4); private prefix lengths (p,q) in {(0,1),(1,2)} (quick) / {(0,1),(1,0),(1,2),(2,1),(0,3),(3,1)} (thorough); shared suffix K as in the statement, plus one further shared value; prefix values are unconstrained reals ('arbitrarily large'); exceptions encoded as assumptions on the shared suffix only (MyRSI: suffix not flat; Roc: x_(t-N) != 0); all comparison outcomes of both instances; in addition long shared suffixes (10N+8 values: strictly decreasing / increasing for Min, Max, HLNormalizer; alternating-then-flat for Sma, Cumulative, WelfordOnline, Vst, Vsct, Max, BinaryEntropy, CoG) after prefixes (1,3) and (0,2), N in {1,2,3} (quick) / {1,2,3,4,6}; and a fresh history against one with an (8N+3)-value alternating private prefix, shared suffix = flat run of N+1 then 3 free values, N in {2,3} / {2,3,4,6}; and N in {5,8} (quick) / {5,6,8,12,16} with prefixes (2,5) along a sampled comparison path",
+        bounds: "N in {1,2} (quick) / {1..4} (thorough) (CTI/NET/PFE at their minimum 3, NET to 4); private prefix lengths (p,q) in {(0,1),(1,2)} (quick) / {(0,1),(1,0),(1,2),(2,1),(0,3),(3,1)} (thorough); shared suffix K as in the statement, plus one further shared value; prefix values are unconstrained reals ('arbitrarily large'); exceptions encoded as assumptions on the shared suffix only (MyRSI: suffix not flat; Roc: x_(t-N) != 0); all comparison outcomes of both instances; in addition long shared suffixes (10N+8 values: strictly decreasing / increasing for Min, Max, HLNormalizer; alternating-then-flat for Sma, Cumulative, WelfordOnline, Vst, Vsct, Max, BinaryEntropy, CoG) after prefixes (1,3) and (0,2), N in {1,2,3} (quick) / {1,2,3,4,6}; and a fresh history against one with an (8N+3)-value alternating private prefix, shared suffix = flat run of N+1 then 3 free values, N in {2,3} / {2,3,4,6}; and N in {5,8} (quick) / {5,6,8,12,16} with prefixes (2,5) along a sampled comparison path; and a fresh history against one with a (107N+3)-value alternating private prefix, N in {5,7} (quick) / {3,5,7,10,13}, for Sma, Cumulative, WelfordOnline, Min, Max, HLNormalizer, BinaryEntropy, CoG, Rsi, CTI",
         outside: vec!["prefixes longer than 3 (a leak needing >= 4 stale values to show)", "N > 4", "'up to rounding': decided over the reals"],
         assumptions: vec![],
     }
